@@ -17,7 +17,6 @@ are known without asking mistletoe):
                   words only).  This sub-domain lies outside the quantifier of the property
                   ("plain-word titles") and is therefore kept under its own contract name.
 """
-import itertools
 
 from runtime.common import use_repo, chunks, Timer
 
